@@ -3,3 +3,4 @@ import PgmVerif.Model.Factor
 import PgmVerif.Model.BN
 import PgmVerif.Model.VE
 import PgmVerif.Model.CPD
+import PgmVerif.Model.Graph
